@@ -9,6 +9,19 @@ ROOT = os.path.dirname(os.path.dirname(os.path.abspath(__file__)))
 
 # property -> (design section, level text, level note, technique)
 BUILT = {
+    "C01": ("4/C01",
+            "Semap.tla (one action per hold of the map mutex: acquire, release with FIFO grant loop, "
+            "cancel-wake, cancel-resolve; entries have identities) is model-checked exhaustively (3 procs, "
+            "1 key, ratio 1..2; thorough 4 procs / 2 keys / ratio 1..3) for Exclusion, NoResidue, StaleFree, "
+            "token accounting, no-lost-grant, FIFO and hold-stability, plus liveness of cancellation under "
+            "fairness; the pinned release rule is kept as a deviation constant and shown to violate the "
+            "invariants. Plans from the spec and seeded random schedules run step by step on real goroutines "
+            "(global quiescence from runtime wait reasons; the cancel-vs-grant race is reached through a gate "
+            "hook); after every step the status of every worker and (present,cur,waiters) per key must equal "
+            "the spec's successor state. Free-running stress runs are judged on monitor events.",
+            "Exhaustive only within MC constants; schedules on real code are sampled. Trusted: TLC, "
+            "runtime.Stack wait reasons, the verif accessors (read-only, under the map mutex).",
+            "TLA+ spec + TLC exhaustive check + step-by-step schedule replay with TLC trace validation"),
     "C04": ("4/C04",
             "LRU.tla (list/table/size counter/eviction loop as in the code) is model-checked exhaustively for "
             "3 keys x 4 sizes x 3 capacities, both charging modes (size never drifts from the true sum, "
@@ -78,7 +91,7 @@ def main():
 
 
 NA = {}
-HOOK_COMMITS = []
+HOOK_COMMITS = ["d87e89d"]
 
 if __name__ == "__main__":
     main()
